@@ -908,6 +908,43 @@ def check_merge(ctx):
            'i.e. with rule lines commented out')
 
 
+def check_json_reader(ctx):
+    """oslopolicy-convert-json-to-yaml is given a JSON policy file: it
+    decodes it with a JSON decoder.  A YAML loader is not one (a TAB between
+    two tokens is JSON white space and a YAML scanner error): the tool then
+    aborts on a file the enforcer loads."""
+    prog = ctx.prog
+    f = prog.func(GEN + '._convert_policy_json_to_yaml')
+    region = [g for q, g in sorted(prog.region(f).items())
+              if g.module.name == GEN and g.name not in (
+                  '_get_enforcer', 'get_policies_dict',
+                  '_format_rule_default_yaml', '_format_help_text')]
+    dec = []
+    for g in [f] + [x for x in region if x is not f]:
+        for c in walk_no_nested(g.node):
+            if isinstance(c, ast.Call):
+                r = prog.resolve(g.module, c.func) or ''
+                if r.endswith(('jsonutils.loads', 'json.loads', 'json.load',
+                               'jsonutils.load')):
+                    dec.append((g, c, True))
+                elif r.endswith(('yaml.safe_load', 'yaml.load',
+                                 'yaml.full_load')) or r.endswith(
+                                     'parse_file_contents'):
+                    dec.append((g, c, r.endswith('parse_file_contents')))
+    if not dec:
+        raise AnalysisError('the converter does not decode its input with a '
+                            'known decoder')
+    bad = [x for x in dec if not x[2]]
+    ctx.ob('C18.JSON-IN', not bad, ctx.where(bad[0][0].module, bad[0][1])
+           if bad else ctx.where(f.module, f.node),
+           bad[0][0].qual if bad else f.qual,
+           'input decoder ' + U((bad or dec)[0][1].func),
+           'the JSON policy file is read with a JSON decoder' if not bad
+           else 'the JSON policy file is read with a YAML loader: valid JSON '
+           'that uses a TAB as white space between tokens is rejected '
+           '(ScannerError) and the tool aborts on a file the enforcer loads')
+
+
 def check_redundant(ctx):
     """A rule is reported (printed, or yielded by a helper whose elements
     are printed) only under `file rule == registered default`."""
@@ -1215,6 +1252,7 @@ def check(ctx):
     check_pop_guard(ctx)
     check_keep_override(ctx)
     check_merge(ctx)
+    check_json_reader(ctx)
     check_redundant(ctx)
     # what "equal" means for redundancy (= C15.EQ)
     from . import c15
